@@ -29,6 +29,7 @@ SVals(inp, cell) == [inp |-> [i \in 1..Len(inp) |-> [f \in 1..2 |-> inp[i][f].v]
 
 ModeProps(m) ==
     CASE m = "pardag" -> {"C16"}
+      [] m = "parmemo" -> {"C17"}
       [] m \in {"parfix", "parfb"} -> {"C18"}
       [] m = "parpcycle" -> {"C14"}
       [] m = "parintern" -> {"C08"}
@@ -126,7 +127,7 @@ OnWcc ==
                         !.mustloc = IF loc THEN st.mustloc \cup {T} ELSE st.mustloc]
 
 OnWe ==
-    /\ (st.mode = "pardag" /\ st.inject = 0) =>
+    /\ (st.mode \in {"pardag", "parmemo"} /\ st.inject = 0) =>
           Check("C17", ev.k \notin st.execd, <<"function executed twice for one key in one revision", ev.k, st.rev, T>>)
     /\ st' = [st EXCEPT !.execd = st.execd \cup {ev.k}]
 
